@@ -14,9 +14,14 @@
 (*  compute_laplacian_is_k     shipped routine = variant at k = |first|    *)
 (*  le_method_reqk_refuted     (Qc) the variant fed with the REQUESTED k   *)
 (*      differs from matL_full on a witness where the search doubled k     *)
+(*  le_method_embed_spec / dm_method_embed_spec   the two embed() bodies   *)
+(*      as single functions of the oracles (search, solver, exp, sqrt,     *)
+(*      pow): composition of the routine theorems with the selection /     *)
+(*      normalisation theorems, contracts stated on what the solver is     *)
+(*      HANDED                                                             *)
 (* ====================================================================== *)
 Require Import Arith Lia List Bool Field Ring.
-From TK Require Import Mat_Sums Mat_Core Lap_Model Lap_Spec Lap_Proof_Lap.
+From TK Require Import Mat_Sums Mat_Core Lap_Model Lap_Spec Lap_Proof_Lap Lap_Proof_Embed Lap_Proof_Dm.
 Import ListNotations.
 Local Open Scope list_scope.
 Local Open Scope nat_scope.
@@ -126,6 +131,143 @@ Section Method.
     compute_laplacian_k dist width expo (length (hd [] nbrs)) n nbrs.
   Proof. intros Hne. destruct nbrs as [|f r]; [contradiction|reflexivity]. Qed.
 End Method.
+
+(* ---------------- the two embed() bodies as single functions ---------------- *)
+Section MethodEmbed.
+  Context {F : Type} {Fo : FieldOps F} {Ff : IsField F}.
+  Add Field LapMethodEmbedField : (@Fth F Fo Ff).
+  Local Open Scope F_scope.
+
+  Lemma gen_contract_meq N (A A' B B' V : mat F) lam :
+    meq N N A A' -> meq N N B B' -> gen_contract N A B V lam -> gen_contract N A' B' V lam.
+  Proof.
+    intros HA HB [H1 H2]. split.
+    - apply meq_trans with (mmul N A V).
+      { apply (mmul_meq N N N); [apply meq_sym; exact HA|apply meq_refl]. }
+      apply meq_trans with (mmul N B (mmul N V (mdiag lam))); [exact H1|].
+      apply (mmul_meq N N N); [exact HB|apply meq_refl].
+    - apply meq_trans with (mmul N (mtrans V) (mmul N B V)); [|exact H2].
+      apply (mmul_meq N N N); [apply meq_refl|].
+      apply (mmul_meq N N N); [apply meq_sym; exact HB|apply meq_refl].
+  Qed.
+
+  Lemma mv_meq N (A A' : mat F) (y : vec F) : meq N N A A' -> veq N (mv N A y) (mv N A' y).
+  Proof. intros H i Hi. unfold mv. apply sumn_ext. intros t Ht. rewrite (H i t Hi Ht). reflexivity. Qed.
+
+  Lemma le_spec_meq N d (L L' Dm Dm' Y : mat F) mu :
+    meq N N L L' -> meq N N Dm Dm' -> le_spec N d L Dm Y mu -> le_spec N d L' Dm' Y mu.
+  Proof.
+    intros HL HD [S1 [S2 S3]]. split; [|split].
+    - intros c Hc i Hi. specialize (S1 c Hc i Hi).
+      rewrite <- (mv_meq N L L' _ HL i Hi). unfold vscale in *.
+      rewrite <- (mv_meq N Dm Dm' _ HD i Hi). exact S1.
+    - apply meq_trans with (mmul N (mtrans Y) (mmul N Dm Y)); [|exact S2].
+      apply (mmul_meq d N d); [apply meq_refl|].
+      apply (mmul_meq N N d); [apply meq_sym; exact HD|apply meq_refl].
+    - intros c Hc. rewrite <- (S3 c Hc). unfold dot. apply sumn_ext. intros i Hi.
+      rewrite (mv_meq N Dm Dm' _ HD i Hi). reflexivity.
+  Qed.
+
+  Lemma mdiag_meq N (u v : vec F) : veq N u v -> meq N N (mdiag u) (mdiag v).
+  Proof. intros H i j Hi Hj. unfold mdiag. destruct (Nat.eqb i j); [apply H; exact Hi|reflexivity]. Qed.
+
+  Variable dist : nat -> nat -> F.
+  Variable width : F.
+  Variable expo : F -> F.
+  Notation heat := (heat_of dist width expo).
+
+  (* the body of LaplacianEigenmaps::embed() in one statement: neighbour search (oracle) -> compute_laplacian ->
+     generalised solver (oracle, contract on what it is HANDED) -> column selection *)
+  Theorem le_method_embed_spec (search : nat -> list (list nat)) (kreq n d : nat)
+          (solver : mat F -> vec F -> mat F * vec F)
+          (ts : list (@triplet F)) (D : list F) (V : mat F) (lam : vec F) :
+    le_method_laplacian dist width expo search kreq n = LOk (ts, D) ->
+    uniform_lists (search kreq) n ->
+    (d + 1 <= n)%nat ->
+    solver (mat_of_triplets ts) (vof D) = (V, lam) ->
+    gen_contract n (mat_of_triplets ts) (mdiag (vof D)) V lam ->
+    (forall c, (c < d)%nat -> lam (1 + c)%nat <> 0) ->
+    exists Y, le_method_embed dist width expo search kreq n d solver = Some Y /\
+              (forall r c, Y r c = V r (1 + c)%nat) /\
+              le_spec n d (matL_full heat (search kreq) n) (mdiag (degD_full heat (search kreq) n)) Y
+                      (fun c => lam (1 + c)%nat).
+  Proof.
+    intros HLap Huni Hd Hsol Hc Hlam.
+    destruct (le_method_full_lists dist width expo search kreq n ts D HLap Huni) as [HLen [_ [HM HDg]]].
+    set (m := length (hd [] (search kreq))).
+    set (L0 := matL heat m (search kreq) n). set (D0 := mdiag (degD heat m (search kreq) n)).
+    assert (EL : meq n n (mat_of_triplets ts) L0).
+    { intros r c Hr Hcc. rewrite (HM r c Hr Hcc). apply matL_full_uniform; assumption. }
+    assert (ED : meq n n (mdiag (vof D)) D0).
+    { apply mdiag_meq. intros r Hr. unfold vof. rewrite (HDg r Hr). apply degD_full_uniform; assumption. }
+    pose proof (gen_contract_meq n _ L0 _ D0 V lam EL ED Hc) as Hc0.
+    destruct (le_embedding_normalised n d L0 D0 V lam Hd) as [Y [HY [HYV HS]]].
+    - apply matL_sym_gen.
+    - intros i Hi. apply matL_row_sum_gen. exact Hi.
+    - apply mdiag_sym.
+    - exact Hc0.
+    - exact Hlam.
+    - exists Y. split.
+      + unfold le_method_embed. rewrite HLap, Hsol. exact HY.
+      + split; [exact HYV|].
+        apply (le_spec_meq n d L0 _ D0 _ Y _); [| |exact HS].
+        * intros r c Hr Hcc. symmetry. apply matL_full_uniform; assumption.
+        * apply mdiag_meq. intros r Hr. symmetry. apply degD_full_uniform; assumption.
+  Qed.
+End MethodEmbed.
+
+Section DmMethod.
+  Context {F : Type} {Fo : FieldOps F} {Ff : IsField F}.
+  Add Field DmMethodField : (@Fth F Fo Ff).
+  Local Open Scope F_scope.
+
+  Lemma eigvec_meq N (M M' : mat F) l (y : vec F) : meq N N M M' -> eigvec N M l y -> eigvec N M' l y.
+  Proof.
+    intros H E i Hi. rewrite <- (E i Hi). unfold mv. apply sumn_ext. intros t Ht.
+    rewrite (H i t Hi Ht). reflexivity.
+  Qed.
+
+  Variable dist : nat -> nat -> F.
+  Variable width : F.
+  Variable expo : F -> F.
+  Variable sqrto : F -> F.
+
+  Theorem dm_method_embed_spec (n d t : nat) (solver : mat F -> mat F * vec F) (powo : F -> nat -> F)
+          (V : mat F) (lam : vec F) (alpha : F) :
+    (d + 1 <= n)%nat ->
+    let K := dm_kernel dist width expo in
+    let s := dm_p2 dist width expo sqrto n in
+    (forall i, (i < n)%nat -> dm_P K n i <> 0) ->
+    (forall i, (i < n)%nat -> s i <> 0) ->
+    (forall i, (i < n)%nat -> sqrto (dm_Q K n i) * sqrto (dm_Q K n i) = dm_Q K n i) ->
+    solver (dm_matrix dist width expo sqrto n) = (V, lam) ->
+    (forall c, (c < d)%nat ->
+       eigvec n (dm_matrix dist width expo sqrto n) (lam (n - (d + 1) + c)%nat) (mcol V (n - (d + 1) + c)%nat)) ->
+    (forall x, powo x t = fpow x t) ->
+    alpha <> 0 -> (forall i, (i < n)%nat -> V i (n - 1)%nat = alpha * s i) ->
+    exists Y, dm_method_embed dist width expo sqrto n d t solver powo = Some Y /\
+      (forall r c, (r < n)%nat -> (c < d)%nat ->
+         Y r c = dm_spec d t (fun x c0 => V x (n - (d + 1) + c0)%nat)
+                         (fun c0 => lam (n - (d + 1) + c0)%nat)
+                         (fun x => V x (n - 1)%nat) r c) /\
+      (forall c, (c < d)%nat ->
+         exists Y', veq n (mcol Y c) Y' /\
+                    eigvec n (dm_markov K n) (lam (n - (d + 1) + c)%nat) Y').
+  Proof.
+    intros Hd K s HP Hs0 Hsq Hsol Heig Hpow Hal Htop.
+    destruct (dm_diffusion_matrix_full F Fo Ff dist width expo sqrto n) as [_ Hfull].
+    destruct (Hfull HP Hs0) as [Hs HM].
+    assert (Hss : forall i, (i < n)%nat -> s i * s i = dm_Q K n i).
+    { intros i Hi. fold s in Hs. rewrite (Hs i Hi). apply Hsq. exact Hi. }
+    destruct (dm_columns n d t K s V lam powo alpha Hd Hss Hs0) as [Y [HY [HYs HYe]]].
+    - intros c Hc. apply (eigvec_meq n _ _ _ _ HM). apply Heig. exact Hc.
+    - exact Hpow.
+    - exact Hal.
+    - exact Htop.
+    - exists Y. split; [|split; assumption].
+      unfold dm_method_embed. rewrite Hsol. exact HY.
+  Qed.
+End DmMethod.
 
 (* ---------------------------------------------------------------------- *)
 (*  Regression (seeded change C09_1): feeding the routine the REQUESTED    *)
